@@ -246,6 +246,76 @@ impl SmObj {
         rec.check(!quotient_cyclic(&self.label, &self.adj), &format!("sm-quotient-cyclic@{at}"), &show_groups(&groups));
     }
 
+    /// input-distribution histogram of the anchored `try_merge` branches, computed from the
+    /// independent data (partition labels, node graph, group layout before the call)
+    fn count_branches(&self, a: usize, b: usize, why: &str, before: &[Vec<usize>], rec: &mut Recorder) {
+        if why == "noop" {
+            rec.count(if a == b { "noop:same-node" } else { "noop:same-group" });
+            return;
+        }
+        let n = self.keys.len();
+        let pos_of = |x: usize| before.iter().position(|g| self.label[g[0]] == self.label[x]);
+        let (Some(pa), Some(pb)) = (pos_of(a), pos_of(b)) else { return };
+        let size = |x: usize| (0..n).filter(|&y| self.label[y] == self.label[x]).count();
+        if why == "enemy" {
+            let direct = self.enemies.iter().any(|&(x, y)| (x == a && y == b) || (x == b && y == a));
+            rec.count(if direct { "enemy:declared-pair-itself" } else { "enemy:inherited-through-merges" });
+            return;
+        }
+        // past the enemy check: `u` = the earlier group, `v` = the later one
+        rec.count(if pa < pb { "order:u-given-first" } else { "order:swapped" });
+        let (lo, hi) = (pa.min(pb), pa.max(pb));
+        rec.count(&format!("window:groups={}", (hi - lo + 1).min(6)));
+        rec.count(&format!("merge:sizes={}+{}", size(before[lo][0]).min(3), size(before[hi][0]).min(3)));
+        let gl = |i: usize| self.label[before[i][0]];
+        // quotient predecessor groups (by layout position) of the group at position i
+        let qpreds = |i: usize| -> BTreeSet<usize> {
+            let mut r = BTreeSet::new();
+            for &x in &before[i] {
+                for &p in &self.adj[x] {
+                    if self.label[p] != gl(i) {
+                        r.insert(before.iter().position(|g| self.label[g[0]] == self.label[p]).unwrap());
+                    }
+                }
+            }
+            r
+        };
+        let direct = qpreds(hi).contains(&lo);
+        if direct {
+            rec.count("cyclecheck:direct-u-v-edge-skipped");
+        }
+        if (lo..=hi).any(|i| qpreds(i).iter().any(|&p| p < lo)) {
+            rec.count("cyclecheck:pred-group-outside-window-pruned");
+        }
+        if why == "cycle" {
+            // fewest intermediate groups on a quotient path u -> .. -> v (BFS backwards from v)
+            let mut dist: BTreeMap<usize, usize> = BTreeMap::new();
+            let mut frontier = vec![hi];
+            dist.insert(hi, 0);
+            while !frontier.is_empty() {
+                let mut next = vec![];
+                for &x in &frontier {
+                    for p in qpreds(x) {
+                        if x == hi && p == lo {
+                            continue;
+                        }
+                        if !dist.contains_key(&p) {
+                            dist.insert(p, dist[&x] + 1);
+                            next.push(p);
+                        }
+                    }
+                }
+                frontier = next;
+            }
+            if let Some(&d) = dist.get(&lo) {
+                rec.count(&format!("cycle:intermediate-groups={}", (d - 1).min(4)));
+            }
+            if direct {
+                rec.count("cycle:with-direct-edge-too");
+            }
+        }
+    }
+
     /// expected answer of `try_merge(a, b)` from the independent data: (answer, reason)
     fn expected_merge(&self, a: usize, b: usize) -> (bool, &'static str) {
         let (la, lb) = (self.label[a], self.label[b]);
@@ -501,6 +571,9 @@ impl Runner {
         let (ka, kb) = (s.keys[a], s.keys[b]);
         let r = catch(AssertUnwindSafe(|| s.sm.try_merge(ka, kb)));
         let detail = format!("adj={} enemies={} groups-before={} merge {a} {b}", show_adj(&s.adj), show_pairs(&s.enemies), before.as_ref().map(|g| show_groups(g)).unwrap_or("panic".into()));
+        if let Some(bf) = &before {
+            s.count_branches(a, b, why, bf, rec);
+        }
         match r {
             Ok(ans) => {
                 rec.count(&format!("merge:{}", why));
@@ -684,6 +757,14 @@ fn merge_lines(rng: &mut Rng, adj: &Adj, steps: usize) -> Vec<String> {
                 if rng.chance(1, 2) { (p, x) } else { (x, p) }
             }
             5..=6 if !merged.is_empty() => *rng.pick(&merged),
+            7 if !edges.is_empty() => {
+                // two-hop pair p -> x -> y: merging p and y is a cycle through x unless x was absorbed;
+                // after earlier merges p / y are often non-representative members of larger groups
+                let (p, x) = *rng.pick(&edges);
+                let outs: Vec<usize> = edges.iter().filter(|&&(q, _)| q == x).map(|&(_, y)| y).collect();
+                let y = if outs.is_empty() { x } else { *rng.pick(&outs) };
+                if rng.chance(1, 2) { (p, y) } else { (y, p) }
+            }
             _ => (rng.below(n as u64) as usize, rng.below(n as u64) as usize),
         };
         merged.push((a, b));
